@@ -35,6 +35,12 @@ package test
 //@ invariant (br *Bridge) ends: br.conn0 != nil && br.conn1 != nil && br.conn0.readCh != nil && br.conn1.readCh != nil && br.conn0.readCh != br.conn1.readCh && br.conn0 != br.conn1 &&
 //@      (!br.conn0.closed ==> !closed(br.conn0.readCh)) && (!br.conn1.closed ==> !closed(br.conn1.readCh))
 
+// the four message sequences never share a backing array (append may grow any of them in place)
+//@ pure apart(a [][]byte, b [][]byte) bool = base(a) == 0 || base(b) == 0 || base(a) != base(b)
+//@ invariant (br *Bridge) sep: apart(br.queue0to1, br.queue1to0) && apart(br.queue0to1, br.stack0) && apart(br.queue0to1, br.stack1) &&
+//@      apart(br.queue1to0, br.stack0) && apart(br.queue1to0, br.stack1) && apart(br.stack0, br.stack1)
+//@ invariant (br *Bridge) alloc: allocated(base(br.queue0to1)) && allocated(base(br.queue1to0)) && allocated(base(br.stack0)) && allocated(base(br.stack1))
+
 //@ func inverse(s [][]byte) (err error)
 //@   modifies s[*]
 //@   ensures [short] len(s) < 2 ==> err != nil && (forall k mathint :: {s[k]} 0 <= k && k < len(s) ==> s[k] == old(s[k]))
@@ -49,6 +55,7 @@ package test
 //@   requires 0 <= offset && offset <= len(s) && n >= 0 && n < 4611686018427387904
 //@   modifies s[*]
 //@   ensures [len] len(r) == len(s) - min(n, len(s) - offset)
+//@   ensures [inplace] base(r) == base(s)
 //@   ensures [head] forall k mathint :: {r[k]} 0 <= k && k < offset ==> r[k] == old(s[k])
 //@   ensures [tail] forall k mathint :: {r[k]} offset <= k && k < len(r) ==> r[k] == old(s[k + min(n, len(s) - offset)])
 
@@ -66,6 +73,8 @@ package test
 //@            len(br.queue0to1) == atlock(len(br.queue0to1)) + atlock(len(br.stack0)) + 1 && isCopy(br.queue0to1[atlock(len(br.queue0to1))], packet) && fresh(base(br.queue0to1[atlock(len(br.queue0to1))])) &&
 //@            (forall k mathint :: {br.queue0to1[k]} 0 <= k && k < atlock(len(br.queue0to1)) ==> br.queue0to1[k] == atlock(br.queue0to1[k])) &&
 //@            (forall k mathint :: {br.queue0to1[k]} atlock(len(br.queue0to1)) < k && k < len(br.queue0to1) ==> br.queue0to1[k] == atlock(br.stack0[atlock(len(br.queue0to1)) + atlock(len(br.stack0)) - k]))
+//@   ghost after inverse#1: assert [lemmaFirst0] fromID == 0 && len(br.stack0) >= 2 ==> br.stack0[0] == data; assert [lemmaRest0] fromID == 0 && len(br.stack0) >= 2 ==> (forall k mathint :: {br.stack0[k]} 1 <= k && k < len(br.stack0) ==> br.stack0[k] == atlock(br.stack0[atlock(len(br.stack0)) - k])); assert [lemmaFirst1] fromID != 0 && len(br.stack1) >= 2 ==> br.stack1[0] == data; assert [lemmaRest1] fromID != 0 && len(br.stack1) >= 2 ==> (forall k mathint :: {br.stack1[k]} 1 <= k && k < len(br.stack1) ==> br.stack1[k] == atlock(br.stack1[atlock(len(br.stack1)) - k]))
+//@   ghost at unlock: assert [lemmaHead0] fromID == 0 && atlock(br.dropNWrites0) <= 0 && atlock(br.reorderNWrites0) == 1 && !br.conn0.closing && !br.conn1.closing ==> len(br.queue0to1) == atlock(len(br.queue0to1)) + atlock(len(br.stack0)) + 1 && br.queue0to1[atlock(len(br.queue0to1))] == data
 //@   ensures [d0.plain] !br.conn0.closing && !br.conn1.closing && fromID == 0 && atlock(br.dropNWrites0) <= 0 && atlock(br.reorderNWrites0) <= 0 && atlock(br.filterCB0) == nil ==> sameSeq(br.stack0, atlock(br.stack0)) &&
 //@            len(br.queue0to1) == atlock(len(br.queue0to1)) + 1 && isCopy(br.queue0to1[atlock(len(br.queue0to1))], packet) && fresh(base(br.queue0to1[atlock(len(br.queue0to1))])) &&
 //@            (forall k mathint :: {br.queue0to1[k]} 0 <= k && k < atlock(len(br.queue0to1)) ==> br.queue0to1[k] == atlock(br.queue0to1[k]))
